@@ -18,6 +18,9 @@ def run(pid, tier):
     scen = pc.gen(rep, 'C02', dict(MaxUnits=n), nparts=14)
     obs = pc.execute(rep, scen, 'default', 'C02')
     pc.validate(rep, 'C02', scen, obs, 'C02-default')
+    # a C89 build of the library (no stdbool: scpi_bool_t is an unsigned char, every truth value passes through it)
+    obs = pc.execute(rep, scen[::5], 'c89', 'C02c89')
+    pc.validate(rep, 'C02', scen[::5], obs, 'C02-c89')
     if tier == 'thorough':
         obs = pc.execute(rep, scen[::7], 'noinfo', 'C02n')
         pc.validate(rep, 'C02', scen[::7], obs, 'C02-noinfo', info=0)
